@@ -19,6 +19,7 @@ var runners = map[string]func(*Ctx){
 	"C02": runC02,
 	"C03": runC03,
 	"C04": runC04,
+	"C05": runC05,
 	"C08": runC08,
 	"C09": runC09,
 	"C10": runC10,
